@@ -26,9 +26,11 @@ WITNESS_CLOUD_FAIL = [[ACCEPT, 1], [HANDSHAKE, 1, 0, 7, 1], [HEARTBEAT, 1], [CLO
 WITNESS_CLOUD_FAIL_SWEEP = [[ACCEPT, 1], [HANDSHAKE, 1, 0, 7, 1], [TICK, 3], [SWEEP]]
 WITNESS_PERSISTENT = [[ADACCEPT, 1, 1], [HANDSHAKE, 1, 0, 7, 1], [ADEND, 1, 0]]
 WITNESS_ADAPTER_ERR = [[ADACCEPT, 1, 0], [ADACCEPT, 2, 1], [HANDSHAKE, 1, 0, 7, 1], [HANDSHAKE, 2, 0, 7, 1], [ADEND, 2, 1], [ADEND, 1, 1]]
+# the protocol adapter (listener) is closed while it still has live connections and the SessionManager keeps running
+WITNESS_ADAPTER_CLOSED = [[ADACCEPT, 1, 0], [ADACCEPT, 2, 1], [HANDSHAKE, 1, 0, 7, 1], [HANDSHAKE, 2, 0, 8, 1], [ADEND, 1, 2], [HEARTBEAT, 2], [ADEND, 2, 2]]
 WITNESS_CLAIM = [[ACCEPT, 1], [ACCEPT, 2], [HANDSHAKE, 1, 0, 7, 1], [REGCLAIM, 2, 7], [CLOSE, 2]]
 EX_ALPHABET_AD = [[ADACCEPT, 1, 1], [ADACCEPT, 2, 0], [HANDSHAKE, 1, 0, 1, 1], [HANDSHAKE, 2, 0, 1, 1], [HANDSHAKE, 2, 0, 2, 1], [ADEND, 1, 0],
-                  [ADEND, 2, 1], [CLOSE, 1], [REMOVE, 2], [REGCLAIM, 1, 2], [REGCLAIM, 2, 1], [HEARTBEAT, 1], [SWEEP], [TICK, 3], [KICK, 1, 2]]
+                  [ADEND, 2, 2], [CLOSE, 1], [REMOVE, 2], [REGCLAIM, 1, 2], [REGCLAIM, 2, 1], [HEARTBEAT, 1], [SWEEP], [TICK, 3], [KICK, 1, 2]]
 
 def with_inj(op, at, j):
     """operation `op` during whose interleaving point `at` operation `j` runs to completion"""
@@ -176,7 +178,7 @@ def rand_op(rng, conns, clients):
     if r < 0.955:
         return rng.choice([[REREG, c, 0], [REREG, c, x], [REREG, c, x], [REREGNEW, c, 0], [REREGNEW, c, x], [REGCLAIM, c, x], [REGCLAIM, c, x]])
     if r < 0.972:
-        return rng.choice([[ADACCEPT, c, 0], [ADACCEPT, c, 1], [ADEND, c, 0], [ADEND, c, 1], [ADEND, c, 0]])
+        return rng.choice([[ADACCEPT, c, 0], [ADACCEPT, c, 1], [ADEND, c, 0], [ADEND, c, 1], [ADEND, c, 2], [ADEND, c, 2]])
     if r < 0.98:
         return [TOTUNNEL, c, rng.choice([0, 1, 1, 2])]
     return [BREAK, c]
@@ -386,6 +388,7 @@ def run(ctx, only_cases=None):
     probes.insert(2, {"cfg": CFG0, "ops": WITNESS_AUTHRAW_TWICE, "stream": "witness"})
     probes += [{"cfg": CFG_CLOUD_FAIL, "ops": WITNESS_CLOUD_FAIL, "stream": "witness"}, {"cfg": CFG_CLOUD_FAIL, "ops": WITNESS_CLOUD_FAIL_SWEEP, "stream": "witness"},
                {"cfg": CFG0, "ops": WITNESS_PERSISTENT, "stream": "witness"}, {"cfg": CFG_CLOUD_FAIL, "ops": WITNESS_ADAPTER_ERR, "stream": "witness"},
+               {"cfg": CFG0, "ops": WITNESS_ADAPTER_CLOSED, "stream": "witness"},
                {"cfg": CFG0, "ops": WITNESS_CLAIM, "stream": "witness"}]
     probes += [{"cfg": CFG0, "ops": w, "stream": "witness"} for w in WITNESS_LATE_REGISTER]
     probes += [{"cfg": CFG0, "ops": w, "stream": "witness"} for w in WITNESS_OVERLAP + [WITNESS_SIBLING_SWEEP, WITNESS_SIBLING_SWEEP2, WITNESS_REFUSED_DUP]]
